@@ -1,6 +1,13 @@
 //! C13 — parsing with a format string inverts formatting with it.
-//! Stage 1 (this file so far): correspondence of the item-driven parser (`format::parse_and_remainder`)
-//! with the model on generated item lists and texts.
+//! Stage 1: correspondence of the item-driven parser (`format::parse_and_remainder`) with the model on
+//! generated item lists and texts (`ps.items`).
+//! Stage 2: the round-trip family.  Format strings are assembled from per-field building blocks
+//! (calendar / ordinal / Sunday-week / Monday-week / ISO-week dates, 24h and 12h times with every
+//! fraction writer, offsets, timestamps, the composites, every padding modifier; up to 8 specifiers),
+//! crossed with values at the per-item boundaries, and with case / white-space perturbations of the
+//! formatted text.  Ops `pf.rt` (format + parse), `pf.p` (parse_from_str), `pf.r` (parse_and_remainder),
+//! `pf.f` (format).  Direct oracle: `T::parse_from_str(&v.format(fmt), fmt)` is the value truncated to
+//! the precision the format prints, for every value the format can express.
 use crate::ctx::*;
 use crate::items::encode_items;
 use chrono::format::{parse_and_remainder, Item, Parsed, StrftimeItems};
@@ -100,8 +107,8 @@ fn gen_text_for(c: &mut Ctx, fmt: &str) -> String {
     text
 }
 
-pub fn run(c: &mut Ctx) {
-    let n = c.n(60000, 600000);
+fn run_stage1(c: &mut Ctx) {
+    let n = c.n(40000, 400000);
     for i in 0..n {
         let fmt = gen_fmt(c);
         let items: Vec<Item> = StrftimeItems::new(&fmt).collect();
@@ -134,4 +141,903 @@ pub fn run(c: &mut Ctx) {
             c.sample(&format!("fmt {:?} text {:?} -> {}", fmt, text, got));
         }
     }
+}
+
+// =================================================================================================
+// Stage 2: the round-trip family
+// =================================================================================================
+use super::c01::{gen_year, yof, MAX_YEAR, MIN_YEAR};
+use chrono::format::ParseResult;
+use chrono::{DateTime, Datelike, FixedOffset, NaiveDate, NaiveDateTime, NaiveTime, TimeZone, Timelike};
+
+/// how a year (calendar or ISO) is written by a form, i.e. which years it can carry
+#[derive(Clone, Copy, PartialEq, Debug)]
+enum YK {
+    /// `%Y` / `%G` followed by a non-digit (or the end): every year, signed, any number of digits
+    Full,
+    /// `%Y` / `%G` directly followed by digits: only the fixed four-digit rendering (0..=9999)
+    Full4,
+    /// `%C%y`: two-digit century, 0..=9999
+    CentMod,
+    /// `%y` / `%g` alone: the 1970..=2069 pivot
+    ModOnly,
+    /// `%Y` together with `%y` or `%C` (redundant): the two-digit fields exist only for years >= 0
+    NonNeg,
+}
+fn year_ok(yk: YK, y: i32) -> bool {
+    match yk {
+        YK::Full => true,
+        YK::Full4 | YK::CentMod => (0..=9999).contains(&y),
+        YK::ModOnly => (1970..=2069).contains(&y),
+        YK::NonNeg => y >= 0,
+    }
+}
+#[derive(Clone, Copy, PartialEq, Debug)]
+enum Frac {
+    None,
+    Exact,
+    D3,
+    D6,
+    D9,
+}
+#[derive(Clone, Debug)]
+struct DForm {
+    fmt: String,
+    yk: Option<YK>,
+    iyk: Option<YK>,
+    class: &'static str,
+}
+#[derive(Clone, Debug)]
+struct TForm {
+    fmt: String,
+    sec: bool,
+    frac: Frac,
+    class: &'static str,
+}
+/// a member of the family for one target type
+#[derive(Clone, Debug)]
+struct Form {
+    fmt: String,
+    date: Option<DForm>,
+    time: Option<TForm>,
+    off: bool,
+    ts: bool,
+}
+
+fn n_specs(fmt: &str) -> usize {
+    let b = fmt.as_bytes();
+    let mut n = 0;
+    let mut i = 0;
+    while i < b.len() {
+        if b[i] == b'%' {
+            if i + 1 < b.len() && b[i + 1] == b'%' {
+                i += 2;
+                continue;
+            }
+            n += 1;
+        }
+        i += 1;
+    }
+    n
+}
+fn has_letter_literal(fmt: &str) -> bool {
+    StrftimeItems::new(fmt).any(|it| match it {
+        Item::Literal(s) => s.chars().any(|ch| ch.is_alphabetic()),
+        Item::OwnedLiteral(s) => s.chars().any(|ch| ch.is_alphabetic()),
+        _ => false,
+    })
+}
+
+const DSEPS: &[&str] = &["-", "/", " ", ".", ", ", "  ", "\t"];
+
+fn date_forms() -> Vec<DForm> {
+    let mut v = vec![];
+    let years: &[(&str, YK)] = &[("%Y", YK::Full), ("%-Y", YK::Full), ("%_Y", YK::Full), ("%C%y", YK::CentMod), ("%y", YK::ModOnly), ("%0C%-y", YK::CentMod), ("%_y", YK::ModOnly)];
+    let months = ["%m", "%-m", "%_m", "%b", "%B", "%h"];
+    let days = ["%d", "%-d", "%_d", "%e", "%0e"];
+    let mut k = 0usize;
+    for (y, yk) in years {
+        for m in months {
+            for d in days {
+                let s = DSEPS[k % DSEPS.len()];
+                let fmt = match (k / DSEPS.len()) % 3 {
+                    0 => format!("{y}{s}{m}{s}{d}"),
+                    1 => format!("{d}{s}{m}{s}{y}"),
+                    _ => format!("{m}{s}{d}{s}{y}"),
+                };
+                v.push(DForm { fmt, yk: Some(*yk), iyk: None, class: "calendar" });
+                k += 1;
+            }
+        }
+    }
+    for (y, yk) in years {
+        for j in ["%j", "%-j", "%_j"] {
+            let s = DSEPS[k % DSEPS.len()];
+            let fmt = if k % 2 == 0 { format!("{y}{s}{j}") } else { format!("{j}{s}{y}") };
+            v.push(DForm { fmt, yk: Some(*yk), iyk: None, class: "ordinal" });
+            k += 1;
+        }
+    }
+    let wdays = ["%a", "%A", "%w", "%u"];
+    for (y, yk) in years {
+        for w in ["%U", "%-U", "%_U", "%W", "%-W", "%_W"] {
+            for wd in wdays {
+                let s = DSEPS[k % DSEPS.len()];
+                let fmt = match k % 3 {
+                    0 => format!("{y}{s}{w}{s}{wd}"),
+                    1 => format!("{wd}{s}{w}{s}{y}"),
+                    _ => format!("{w}{s}{wd}{s}{y}"),
+                };
+                v.push(DForm { fmt, yk: Some(*yk), iyk: None, class: if w.ends_with('U') { "week-sun" } else { "week-mon" } });
+                k += 1;
+            }
+        }
+    }
+    let iyears: &[(&str, YK)] = &[("%G", YK::Full), ("%-G", YK::Full), ("%_G", YK::Full), ("%g", YK::ModOnly), ("%-g", YK::ModOnly)];
+    for (y, yk) in iyears {
+        for w in ["%V", "%-V", "%_V"] {
+            for wd in wdays {
+                let s = DSEPS[k % DSEPS.len()];
+                let fmt = match k % 3 {
+                    0 => format!("{y}{s}{w}{s}{wd}"),
+                    1 => format!("{wd}{s}{w}{s}{y}"),
+                    _ => format!("{y}-W{w}-{wd}"),
+                };
+                v.push(DForm { fmt, yk: None, iyk: Some(*yk), class: "iso-week" });
+                k += 1;
+            }
+        }
+    }
+    let f = |fmt: &str, yk: Option<YK>, iyk: Option<YK>, class: &'static str| DForm { fmt: fmt.to_string(), yk, iyk, class };
+    v.extend([
+        f("%F", Some(YK::Full), None, "composite"),
+        f("%D", Some(YK::ModOnly), None, "composite"),
+        f("%x", Some(YK::ModOnly), None, "composite"),
+        f("%v", Some(YK::Full), None, "composite"),
+        f("%Y%m%d", Some(YK::Full4), None, "adjacent"),
+        f("%C%y%m%d", Some(YK::CentMod), None, "adjacent"),
+        f("%y%m%d", Some(YK::ModOnly), None, "adjacent"),
+        f("%Y%j", Some(YK::Full4), None, "adjacent"),
+        f("%d%m%Y", Some(YK::Full), None, "adjacent"),
+        f("%G%V%u", None, Some(YK::Full4), "adjacent"),
+        f("%g%V%w", None, Some(YK::ModOnly), "adjacent"),
+        f("%A, %d %B %Y", Some(YK::Full), None, "redundant"),
+        f("%a %b %e %Y", Some(YK::Full), None, "redundant"),
+        f("%Y-%m-%d %j", Some(YK::Full), None, "redundant"),
+        f("%Y-%m-%d %q", Some(YK::Full), None, "redundant"),
+        f("%Y-%m-%d %G-%V-%u", Some(YK::Full), Some(YK::Full), "redundant"),
+        f("%Y %b %d %U %W %w", Some(YK::Full), None, "redundant"),
+        f("%C%y-%m-%d %Y", Some(YK::CentMod), None, "redundant"),
+        f("%y %Y %j", Some(YK::NonNeg), None, "redundant"),
+        f("%G %g %V %a", None, Some(YK::NonNeg), "redundant"),
+        f("%Y%%%m%%%d", Some(YK::Full), None, "calendar"),
+        f("%Y\u{e9}%m\u{3000}%d", Some(YK::Full), None, "calendar"),
+        f("%Y%n%m%t%d", Some(YK::Full), None, "calendar"),
+    ]);
+    v
+}
+
+fn time_forms() -> Vec<TForm> {
+    let mut v = vec![];
+    let hours = ["%H", "%-H", "%_H", "%k", "%0k"];
+    let mins = ["%M", "%-M", "%_M"];
+    let secs = ["%S", "%-S", "%_S"];
+    let fracs: &[(&str, Frac, bool)] = &[
+        ("", Frac::None, false),
+        ("%.f", Frac::Exact, false),
+        ("%.3f", Frac::D3, false),
+        ("%.6f", Frac::D6, false),
+        ("%.9f", Frac::D9, false),
+        ("%3f", Frac::D3, true),
+        ("%6f", Frac::D6, true),
+        ("%9f", Frac::D9, true),
+        (".%f", Frac::D9, false),
+        (".%-f", Frac::D9, false),
+        (" %_f", Frac::D9, false),
+        ("%f", Frac::D9, true),
+    ];
+    let seps = [":", ".", " ", ": "];
+    let mut k = 0usize;
+    for h in hours {
+        for m in mins {
+            let s = seps[k % seps.len()];
+            v.push(TForm { fmt: format!("{h}{s}{m}"), sec: false, frac: Frac::None, class: "hm" });
+            for _ in 0..4 {
+                let sc = secs[k % secs.len()];
+                let (fr, fk, needs_fixed) = fracs[k % fracs.len()];
+                let sc = if needs_fixed { "%S" } else { sc };
+                let s = seps[k % seps.len()];
+                v.push(TForm { fmt: format!("{h}{s}{m}{s}{sc}{fr}"), sec: true, frac: fk, class: if fk == Frac::None { "hms" } else { "hms-frac" } });
+                k += 1;
+            }
+        }
+    }
+    for h in ["%I", "%-I", "%_I", "%l", "%0l"] {
+        for p in ["%p", "%P"] {
+            let (fr, fk, needs_fixed) = fracs[k % fracs.len()];
+            let sc = if needs_fixed { "%S" } else { secs[k % secs.len()] };
+            v.push(TForm { fmt: format!("{h}:%M:{sc}{fr} {p}"), sec: true, frac: fk, class: "12h" });
+            v.push(TForm { fmt: format!("{h}.%-M {p}"), sec: false, frac: Frac::None, class: "12h" });
+            v.push(TForm { fmt: format!("{p} {h}:%M:{sc}"), sec: true, frac: Frac::None, class: "12h" });
+            k += 1;
+        }
+    }
+    let f = |fmt: &str, sec: bool, frac: Frac, class: &'static str| TForm { fmt: fmt.to_string(), sec, frac, class };
+    v.extend([
+        f("%R", false, Frac::None, "composite"),
+        f("%T", true, Frac::None, "composite"),
+        f("%X", true, Frac::None, "composite"),
+        f("%r", true, Frac::None, "composite"),
+        f("%T%.f", true, Frac::Exact, "composite"),
+        f("%R:%S%.3f", true, Frac::D3, "composite"),
+        f("%H%M%S", true, Frac::None, "adjacent"),
+        f("%H%M", false, Frac::None, "adjacent"),
+        f("%H%M%S%3f", true, Frac::D3, "adjacent"),
+        f("%H%M%S%f", true, Frac::D9, "adjacent"),
+        f("%I%M%S%p", true, Frac::None, "adjacent"),
+        f("%H:%M:%S %I %p", true, Frac::None, "redundant"),
+    ]);
+    v
+}
+
+// ---- values -------------------------------------------------------------------------------------
+const YEARS2: &[i32] = &[
+    MIN_YEAR, MIN_YEAR + 1, -100000, -99999, -10000, -9999, -1000, -999, -100, -99, -10, -1, 0, 1, 9, 10, 99, 100, 999, 1000, 1900, 1969, 1970,
+    1999, 2000, 2024, 2069, 2070, 9999, 10000, 12345, 99999, 100000, MAX_YEAR - 1, MAX_YEAR,
+];
+const ORDS2: &[u32] = &[1, 2, 3, 4, 5, 6, 7, 8, 9, 10, 31, 32, 59, 60, 61, 99, 100, 101, 358, 359, 360, 361, 362, 363, 364, 365, 366];
+const SECS2: &[u32] = &[0, 1, 59, 60, 599, 600, 3599, 3600, 3661, 35999, 36000, 39599, 43199, 43200, 43201, 46799, 46800, 82799, 82800, 86340, 86398, 86399];
+const FRACS2: &[u32] = &[0, 1, 999, 1000, 999_999, 1_000_000, 26_490_000, 100_000_000, 123_000_000, 123_456_000, 123_456_789, 999_000_000, 999_999_999];
+const LEAPS: &[u32] = &[1_000_000_000, 1_000_000_001, 1_500_000_000, 1_999_999_999];
+const OFFS2: &[i32] = &[0, 1, 29, 30, 31, 59, 60, 61, 1800, 3599, 3600, 3630, 19800, 20700, 35999, 36000, 45296, 50400, 86340, 86369, 86370, 86399];
+
+fn gen_date_for(c: &mut Ctx, f: Option<&DForm>) -> NaiveDate {
+    let special: &[i32] = match f.map(|f| (f.yk, f.iyk)) {
+        Some((Some(YK::ModOnly), _)) | Some((_, Some(YK::ModOnly))) => &[1969, 1970, 1971, 1999, 2000, 2068, 2069, 2070],
+        Some((Some(YK::CentMod), _)) | Some((Some(YK::Full4), _)) | Some((_, Some(YK::Full4))) => &[-1, 0, 1, 99, 100, 999, 1000, 2024, 9999, 10000],
+        _ => YEARS2,
+    };
+    loop {
+        let y = match c.rng.below(6) {
+            0 | 1 | 2 => *c.rng.pick(special),
+            3 | 4 => *c.rng.pick(YEARS2),
+            _ => gen_year(c),
+        };
+        let o = if c.rng.chance(2, 3) { *c.rng.pick(ORDS2) } else { c.rng.range(1, 366) as u32 };
+        if let Some(d) = NaiveDate::from_yo_opt(y, o) {
+            return d;
+        }
+    }
+}
+fn gen_time2(c: &mut Ctx) -> NaiveTime {
+    let secs = if c.rng.chance(1, 3) { c.rng.below(86400) as u32 } else { *c.rng.pick(SECS2) };
+    let mut frac = if c.rng.chance(1, 4) { c.rng.below(1_000_000_000) as u32 } else { *c.rng.pick(FRACS2) };
+    if secs % 60 == 59 && c.rng.chance(1, 2) {
+        frac = *c.rng.pick(LEAPS);
+    } else if c.rng.chance(1, 40) {
+        frac = *c.rng.pick(LEAPS); // leap representation on a second other than :59 (only `with_nanosecond` builds it)
+    }
+    NaiveTime::from_num_seconds_from_midnight_opt(secs, 0).unwrap().with_nanosecond(frac).unwrap()
+}
+fn gen_off2(c: &mut Ctx) -> i32 {
+    let o = if c.rng.chance(1, 5) { c.rng.range(-86399, 86399) as i32 } else { *c.rng.pick(OFFS2) };
+    if c.rng.chance(1, 2) {
+        -o
+    } else {
+        o
+    }
+}
+
+#[derive(Clone, Copy, Debug)]
+enum Val {
+    D(NaiveDate),
+    T(NaiveTime),
+    N(NaiveDateTime),
+    Z(DateTime<FixedOffset>),
+}
+fn vt(t: &NaiveTime) -> String {
+    format!("{} {}", t.num_seconds_from_midnight(), t.nanosecond())
+}
+fn vn(n: &NaiveDateTime) -> String {
+    format!("{} {}", yof(&n.date()), vt(&n.time()))
+}
+impl Val {
+    fn tname(&self) -> &'static str {
+        match self {
+            Val::D(_) => "date",
+            Val::T(_) => "time",
+            Val::N(_) => "naive",
+            Val::Z(_) => "zoned",
+        }
+    }
+    fn tokens(&self) -> String {
+        match self {
+            Val::D(d) => yof(d).to_string(),
+            Val::T(t) => vt(t),
+            Val::N(n) => vn(n),
+            Val::Z(z) => format!("{} {}", vn(&z.naive_utc()), z.offset().local_minus_utc()),
+        }
+    }
+    /// `write!(s, "{}", v.format(fmt))`: text | err (`fmt::Error`) | panic
+    fn format(&self, fmt: &str) -> Result<Result<String, ()>, ()> {
+        use std::fmt::Write;
+        guard(|| {
+            let mut s = String::new();
+            let r = match self {
+                Val::D(d) => write!(s, "{}", d.format(fmt)),
+                Val::T(t) => write!(s, "{}", t.format(fmt)),
+                Val::N(n) => write!(s, "{}", n.format(fmt)),
+                Val::Z(z) => write!(s, "{}", z.format(fmt)),
+            };
+            r.map(|_| s).map_err(|_| ())
+        })
+    }
+    /// the rendering of every item on its own (used to find the white-space runs in the text)
+    fn pieces(&self, fmt: &str) -> Option<Vec<(bool, String)>> {
+        use chrono::format::DelayedFormat;
+        use std::fmt::Write;
+        let items: Vec<Item> = StrftimeItems::new(fmt).collect();
+        let mut out = vec![];
+        for it in &items {
+            let one = [it.clone()];
+            let r = guard(|| {
+                let mut s = String::new();
+                let df = match self {
+                    Val::D(d) => DelayedFormat::new(Some(*d), None, one.iter()),
+                    Val::T(t) => DelayedFormat::new(None, Some(*t), one.iter()),
+                    Val::N(n) => DelayedFormat::new(Some(n.date()), Some(n.time()), one.iter()),
+                    Val::Z(z) => {
+                        let l = z.naive_local();
+                        DelayedFormat::new_with_offset(Some(l.date()), Some(l.time()), z.offset(), one.iter())
+                    }
+                };
+                write!(s, "{}", df).map(|_| s).map_err(|_| ())
+            });
+            match r {
+                Ok(Ok(s)) => out.push((matches!(it, Item::Space(_) | Item::OwnedSpace(_)), s)),
+                _ => return None,
+            }
+        }
+        Some(out)
+    }
+}
+fn parse_as(target: &str, text: &str, fmt: &str) -> Result<ParseResult<Val>, ()> {
+    guard(|| match target {
+        "date" => NaiveDate::parse_from_str(text, fmt).map(Val::D),
+        "time" => NaiveTime::parse_from_str(text, fmt).map(Val::T),
+        "naive" => NaiveDateTime::parse_from_str(text, fmt).map(Val::N),
+        _ => DateTime::<FixedOffset>::parse_from_str(text, fmt).map(Val::Z),
+    })
+}
+fn parse_rem_as(target: &str, text: &str, fmt: &str) -> Result<ParseResult<(Val, usize)>, ()> {
+    guard(|| match target {
+        "date" => NaiveDate::parse_and_remainder(text, fmt).map(|(v, r)| (Val::D(v), r.len())),
+        "time" => NaiveTime::parse_and_remainder(text, fmt).map(|(v, r)| (Val::T(v), r.len())),
+        "naive" => NaiveDateTime::parse_and_remainder(text, fmt).map(|(v, r)| (Val::N(v), r.len())),
+        _ => DateTime::<FixedOffset>::parse_and_remainder(text, fmt).map(|(v, r)| (Val::Z(v), r.len())),
+    })
+}
+fn show_parse(r: &Result<ParseResult<Val>, ()>) -> String {
+    match r {
+        Ok(Ok(v)) => format!("ok {}", v.tokens()),
+        Ok(Err(e)) => format!("err {}", err_kind(e)),
+        Err(()) => "panic".into(),
+    }
+}
+
+// ---- what the round trip must return ---------------------------------------------------------------
+fn trunc_time(t: &NaiveTime, tf: &TForm) -> Option<NaiveTime> {
+    let (h, m, s) = (t.hour(), t.minute(), t.second());
+    let leap = t.nanosecond() >= 1_000_000_000;
+    let ns = t.nanosecond() % 1_000_000_000;
+    if leap && s != 59 {
+        return None; // not a value the public constructors build; prints as second s+1
+    }
+    if !tf.sec {
+        return NaiveTime::from_hms_opt(h, m, 0);
+    }
+    let ns2 = match tf.frac {
+        Frac::None => 0,
+        Frac::Exact | Frac::D9 => ns,
+        Frac::D3 => ns / 1_000_000 * 1_000_000,
+        Frac::D6 => ns / 1_000 * 1_000,
+    };
+    NaiveTime::from_hms_nano_opt(h, m, s, ns2 + if leap { 1_000_000_000 } else { 0 })
+}
+fn date_ok(d: &NaiveDate, df: &DForm) -> bool {
+    df.yk.map_or(true, |k| year_ok(k, d.year())) && df.iyk.map_or(true, |k| year_ok(k, d.iso_week().year()))
+}
+/// offset as `%z` / `%:z` / `%+` print it: rounded to the nearest minute, sign kept apart
+fn round_off(off: i32) -> i32 {
+    let a = (off.abs() + 30) / 60 * 60;
+    if off < 0 {
+        -a
+    } else {
+        a
+    }
+}
+/// `Some(expected)` if the value is one the format can express (then the round trip must return
+/// `expected`), `None` otherwise (then the case is only compared with the model)
+fn expected(form: &Form, v: &Val) -> Option<Val> {
+    match v {
+        Val::D(d) => {
+            let df = form.date.as_ref()?;
+            if date_ok(d, df) {
+                Some(Val::D(*d))
+            } else {
+                None
+            }
+        }
+        Val::T(t) => Some(Val::T(trunc_time(t, form.time.as_ref()?)?)),
+        Val::N(n) => {
+            if let (Some(df), Some(tf)) = (&form.date, &form.time) {
+                if !date_ok(&n.date(), df) || (form.ts && !tf.sec && n.time().second() != 0) {
+                    return None;
+                }
+                Some(Val::N(n.date().and_time(trunc_time(&n.time(), tf)?)))
+            } else if form.ts {
+                let t = n.time();
+                if t.nanosecond() >= 1_000_000_000 && t.second() != 59 {
+                    return None;
+                }
+                Some(Val::N(n.date().and_time(NaiveTime::from_hms_opt(t.hour(), t.minute(), t.second())?)))
+            } else {
+                None
+            }
+        }
+        Val::Z(z) => {
+            let off = z.offset().local_minus_utc();
+            let off2 = if form.off { round_off(off) } else { 0 };
+            let fo = FixedOffset::east_opt(off2)?;
+            if let (Some(df), Some(tf)) = (&form.date, &form.time) {
+                if !form.off && !form.ts {
+                    return None;
+                }
+                let l = guard(|| z.naive_local()).ok()?;
+                if !date_ok(&l.date(), df) {
+                    return None;
+                }
+                if form.ts && (off2 != off || (!tf.sec && l.time().second() != 0)) {
+                    return None; // the timestamp carries the exact second and offset, the fields must too
+                }
+                let l2 = l.date().and_time(trunc_time(&l.time(), tf)?);
+                fo.from_local_datetime(&l2).single().map(Val::Z)
+            } else if form.ts {
+                let u = z.naive_utc();
+                let t = u.time();
+                if t.nanosecond() >= 1_000_000_000 && t.second() != 59 {
+                    return None;
+                }
+                let u2 = u.date().and_time(NaiveTime::from_hms_opt(t.hour(), t.minute(), t.second())?);
+                Some(Val::Z(fo.from_utc_datetime(&u2)))
+            } else {
+                None
+            }
+        }
+    }
+}
+
+fn classes(c: &mut Ctx, v: &Val, form: &Form) {
+    let (d, t, off) = match v {
+        Val::D(d) => (Some(*d), None, None),
+        Val::T(t) => (None, Some(*t), None),
+        Val::N(n) => (Some(n.date()), Some(n.time()), None),
+        Val::Z(z) => (Some(z.naive_utc().date()), Some(z.naive_utc().time()), Some(z.offset().local_minus_utc())),
+    };
+    if let Some(d) = d {
+        let y = d.year();
+        c.count(if y < 0 {
+            "value:year<0"
+        } else if y > 9999 {
+            "value:year>9999"
+        } else if (1970..=2069).contains(&y) {
+            "value:year-in-pivot"
+        } else {
+            "value:year-0..9999"
+        });
+        if d.iso_week().year() != y {
+            c.count("value:iso-year!=year");
+        }
+    }
+    if let Some(t) = t {
+        if t.nanosecond() >= 1_000_000_000 {
+            c.count(if t.second() == 59 { "value:leap-second" } else { "value:leap-frac-off-59" });
+        }
+        if t.hour() % 12 == 0 {
+            c.count("value:hour-0-or-12");
+        }
+    }
+    if let Some(o) = off {
+        if o % 60 != 0 {
+            c.count("value:offset-with-seconds");
+        }
+        if o.abs() >= 86370 {
+            c.count("value:offset-rounds-to-24h");
+        }
+    }
+    if let Some(df) = &form.date {
+        c.count(&format!("form:date:{}", df.class));
+    }
+    if let Some(tf) = &form.time {
+        c.count(&format!("form:time:{}", tf.class));
+    }
+    c.count(&format!("form:specifiers:{}", n_specs(&form.fmt)));
+}
+
+const WS_EXTRA: &[&str] = &[" ", "  ", "\t", "\n ", "\u{a0}", " \u{3000}\u{2003}", "\r\n\t ", "\u{85}\u{1680}", "\u{2028}\u{205f}"];
+
+fn flip_case(c: &mut Ctx, text: &str) -> String {
+    match c.rng.below(3) {
+        0 => text.to_ascii_uppercase(),
+        1 => text.to_ascii_lowercase(),
+        _ => text.chars().map(|ch| if c.rng.chance(1, 2) { ch.to_ascii_uppercase() } else { ch.to_ascii_lowercase() }).collect(),
+    }
+}
+
+/// one family member × one value: the round trip, its oracle, and the perturbations
+fn run_case(c: &mut Ctx, form: &Form, v: &Val, sample: bool) {
+    let fmt = &form.fmt;
+    let target = v.tname();
+    let text = v.format(fmt);
+    let exp = expected(form, v);
+    classes(c, v, form);
+    let (reply, parsed) = match &text {
+        Ok(Ok(s)) => {
+            let r = parse_as(target, s, fmt);
+            (format!("{} {}", hex(s.as_bytes()), show_parse(&r)), Some(r))
+        }
+        Ok(Err(())) => ("err".to_string(), None),
+        Err(()) => ("panic".to_string(), None),
+    };
+    c.op(&format!("pf.rt {} {} {}", target, hex(fmt.as_bytes()), v.tokens()), &reply);
+    if sample {
+        c.sample(&format!("{} {:?} value {} -> {}", target, fmt, v.tokens(), match &text { Ok(Ok(s)) => format!("{:?} -> {}", s, show_parse(parsed.as_ref().unwrap())), _ => reply.clone() }));
+    }
+    let text = match text {
+        Ok(Ok(s)) => s,
+        _ => {
+            c.count(&format!("rt:{}:format-failed", target));
+            if exp.is_some() {
+                c.fail("round trip: formatting an expressible value failed", &format!("{} fmt {:?} value {}", target, fmt, v.tokens()));
+            }
+            return;
+        }
+    };
+    let got = show_parse(parsed.as_ref().unwrap());
+    // the specification (Spec/UnambiguousSpec.lean) against the implementation: wherever it predicts a
+    // result for this format and value, the prediction must be what the crate returned
+    c.op(&format!("pf.sp {} {} {} | {}", target, hex(fmt.as_bytes()), v.tokens(), got), "agree");
+    // non-vacuity of that validation: on the plainly separated classes the specification must predict
+    let plain = match v {
+        Val::D(_) => form.date.as_ref().map_or(false, |d| matches!(d.class, "calendar" | "ordinal" | "week-sun" | "week-mon" | "iso-week" | "composite")),
+        Val::T(_) => form.time.as_ref().map_or(false, |t| matches!(t.class, "hm" | "composite")),
+        _ => false,
+    };
+    if plain && exp.is_some() {
+        c.op(&format!("pf.spq {} {} {}", target, hex(fmt.as_bytes()), v.tokens()), "pred");
+        c.count("spec:prediction-required");
+    }
+    match &exp {
+        Some(e) => {
+            c.count(&format!("rt:{}:expressible", target));
+            let want = format!("ok {}", e.tokens());
+            if got != want {
+                c.fail(
+                    "round trip: parse_from_str(format(v)) is not v truncated to the printed precision",
+                    &format!("{} fmt {:?} value {} text {:?} got [{}] want [{}]", target, fmt, v.tokens(), text, got, want),
+                );
+            }
+        }
+        None => c.count(&format!("rt:{}:inexpressible:{}", target, if got.starts_with("ok") { "ok" } else { &got[4..] })),
+    }
+    // parse_and_remainder with a tail that cannot extend the last token
+    if c.rng.chance(1, 6) {
+        let tail = *c.rng.pick(&[" tail", "\u{e9}", "#1", " 5", "x"]);
+        let t2 = format!("{}{}", text, tail);
+        let r = parse_rem_as(target, &t2, fmt);
+        let shown = match &r {
+            Ok(Ok((v, n))) => format!("ok {} rest={}", v.tokens(), n),
+            Ok(Err(e)) => format!("err {}", err_kind(e)),
+            Err(()) => "panic".into(),
+        };
+        c.op(&format!("pf.r {} {} {}", target, hex(fmt.as_bytes()), hex(t2.as_bytes())), &shown);
+        c.count("rem:cases");
+    }
+    // case perturbation: names, am/pm and the `T`/`Z` of `%+` are read in any letter case
+    if !has_letter_literal(fmt) && text.chars().any(|ch| ch.is_ascii_alphabetic()) && c.rng.chance(2, 3) {
+        let t2 = flip_case(c, &text);
+        if t2 != text {
+            let r = parse_as(target, &t2, fmt);
+            let shown = show_parse(&r);
+            c.op(&format!("pf.p {} {} {}", target, hex(fmt.as_bytes()), hex(t2.as_bytes())), &shown);
+            c.count("perturb:case");
+            if exp.is_some() && shown != got {
+                c.fail("case perturbation changes the parse result", &format!("{} fmt {:?} text {:?} -> [{}], {:?} -> [{}]", target, fmt, text, got, t2, shown));
+            }
+        }
+    }
+    // surplus white space wherever the format has white space
+    if c.rng.chance(1, 2) {
+        if let Some(ps) = v.pieces(fmt) {
+            let whole: String = ps.iter().map(|(_, s)| s.as_str()).collect();
+            if whole != text {
+                c.fail("format(v) is not the concatenation of its items' renderings", &format!("{} fmt {:?} value {}", target, fmt, v.tokens()));
+            } else if ps.iter().any(|(sp, _)| *sp) {
+                let mut t2 = String::new();
+                for (sp, s) in &ps {
+                    if *sp {
+                        match c.rng.below(3) {
+                            0 => {
+                                t2.push_str(s);
+                                t2.push_str(*c.rng.pick(WS_EXTRA));
+                            }
+                            1 => {
+                                t2.push_str(*c.rng.pick(WS_EXTRA));
+                                t2.push_str(s);
+                            }
+                            _ => t2.push_str(*c.rng.pick(WS_EXTRA)),
+                        }
+                    } else {
+                        t2.push_str(s);
+                    }
+                }
+                let r = parse_as(target, &t2, fmt);
+                let shown = show_parse(&r);
+                c.op(&format!("pf.p {} {} {}", target, hex(fmt.as_bytes()), hex(t2.as_bytes())), &shown);
+                c.count("perturb:space");
+                if exp.is_some() && shown != got {
+                    c.fail("surplus white space at a white-space item changes the parse result", &format!("{} fmt {:?} text {:?} -> [{}], {:?} -> [{}]", target, fmt, text, got, t2, shown));
+                }
+            }
+        }
+    }
+}
+
+fn mk_form(d: Option<&DForm>, sep: &str, t: Option<&TForm>, tail: &str, off: bool, ts: bool) -> Form {
+    let mut fmt = String::new();
+    if let Some(d) = d {
+        fmt.push_str(&d.fmt);
+    }
+    if d.is_some() && t.is_some() {
+        fmt.push_str(sep);
+    }
+    if let Some(t) = t {
+        fmt.push_str(&t.fmt);
+    }
+    fmt.push_str(tail);
+    Form { fmt, date: d.cloned(), time: t.cloned(), off, ts }
+}
+
+fn gen_naive(c: &mut Ctx, d: Option<&DForm>) -> NaiveDateTime {
+    gen_date_for(c, d).and_time(gen_time2(c))
+}
+/// a zone-aware value whose *local* date is drawn at the form's boundaries
+fn gen_zoned(c: &mut Ctx, d: Option<&DForm>) -> DateTime<FixedOffset> {
+    loop {
+        let l = gen_naive(c, d);
+        let fo = FixedOffset::east_opt(gen_off2(c)).unwrap();
+        if let Some(z) = fo.from_local_datetime(&l).single() {
+            return z;
+        }
+    }
+}
+
+fn run_family(c: &mut Ctx) {
+    let dfs = date_forms();
+    let tfs = time_forms();
+    let k = c.n(2, 12);
+    let dtseps = [" ", "T", "  ", ", ", "_", " at "];
+    c.count_n("family:date-forms", dfs.len() as u64);
+    c.count_n("family:time-forms", tfs.len() as u64);
+    // every specifier the reader can invert occurs in some member
+    let all: String = dfs.iter().map(|f| f.fmt.clone()).chain(tfs.iter().map(|f| f.fmt.clone())).collect::<Vec<_>>().join(" ") + " %z %:z %s %+ %c";
+    for sp in [
+        "%Y", "%C", "%y", "%q", "%m", "%b", "%B", "%h", "%d", "%e", "%a", "%A", "%w", "%u", "%U", "%W", "%G", "%g", "%V", "%j", "%D", "%x", "%F", "%v", "%H", "%k",
+        "%I", "%l", "%P", "%p", "%M", "%S", "%f", "%.f", "%.3f", "%.6f", "%.9f", "%3f", "%6f", "%9f", "%R", "%T", "%X", "%r", "%z", "%:z", "%c", "%+", "%s", "%t",
+        "%n", "%%",
+    ] {
+        if !all.contains(sp) {
+            c.fail("family generator: invertible specifier missing from every member", sp);
+        }
+    }
+    // dates
+    for (i, df) in dfs.iter().enumerate() {
+        let form = mk_form(Some(df), "", None, "", false, false);
+        for j in 0..10 * k {
+            let d = gen_date_for(c, Some(df));
+            run_case(c, &form, &Val::D(d), i % 97 == 0 && j == 0);
+        }
+    }
+    // times
+    for (i, tf) in tfs.iter().enumerate() {
+        let form = mk_form(None, "", Some(tf), "", false, false);
+        for j in 0..16 * k {
+            let t = gen_time2(c);
+            run_case(c, &form, &Val::T(t), i % 61 == 0 && j == 0);
+        }
+    }
+    // naive date-times and zone-aware values: every date form with rotating time forms
+    for (i, df) in dfs.iter().enumerate() {
+        for r in 0..2 {
+            let tf = &tfs[(i * 7 + r * 13) % tfs.len()];
+            let sep = dtseps[(i + r) % dtseps.len()];
+            if n_specs(&df.fmt) + n_specs(&tf.fmt) <= 8 {
+                let form = mk_form(Some(df), sep, Some(tf), "", false, false);
+                for j in 0..5 * k {
+                    let v = gen_naive(c, Some(df));
+                    run_case(c, &form, &Val::N(v), i % 89 == 0 && j == 0 && r == 0);
+                }
+            }
+            let (tail, off, ts) = match (i + r) % 6 {
+                0 => (" %z", true, false),
+                1 => ("%z", true, false),
+                2 => (" %:z", true, false),
+                3 => ("%:z", true, false),
+                4 => (" %s %z", true, true),
+                _ => (" %z", true, false),
+            };
+            if n_specs(&df.fmt) + n_specs(&tf.fmt) + n_specs(tail) <= 8 {
+                let form = mk_form(Some(df), sep, Some(tf), tail, off, ts);
+                for j in 0..5 * k {
+                    let z = gen_zoned(c, Some(df));
+                    run_case(c, &form, &Val::Z(z), i % 83 == 0 && j == 0 && r == 0);
+                }
+            }
+        }
+    }
+    // timestamps, `%+`, `%c`
+    let special: &[(&str, &str, bool, bool, bool, bool)] = &[
+        // (target, fmt, date+time fields?, seconds, off, ts)
+        ("naive", "%s", false, false, false, true),
+        ("zoned", "%s", false, false, false, true),
+        ("zoned", "%s %z", false, false, true, true),
+        ("zoned", "%s%:z", false, false, true, true),
+        ("zoned", "%z %s", false, false, true, true),
+        ("naive", "%s %F %T", true, true, false, true),
+        ("naive", "%c", true, true, false, false),
+        ("zoned", "%c %z", true, true, true, false),
+        ("zoned", "%+", true, true, true, false),
+        ("zoned", "%F %T%.f %s", true, true, false, true),
+    ];
+    for (target, fmt, fields, _sec, off, ts) in special {
+        let df = DForm { fmt: String::new(), yk: Some(YK::Full), iyk: None, class: "special" };
+        let tf = TForm { fmt: String::new(), sec: true, frac: if fmt.contains("%+") || fmt.contains("%.f") { Frac::Exact } else { Frac::None }, class: "special" };
+        let form = Form { fmt: fmt.to_string(), date: if *fields { Some(df.clone()) } else { None }, time: if *fields { Some(tf) } else { None }, off: *off, ts: *ts };
+        for j in 0..120 * k {
+            let v = if *target == "naive" { Val::N(gen_naive(c, Some(&df))) } else { Val::Z(gen_zoned(c, Some(&df))) };
+            run_case(c, &form, &v, j == 0);
+        }
+    }
+}
+
+/// print-only (`%::z`, `%:::z`, `%Z`) and read-only (`%#z`) items: never claimed to round-trip;
+/// compared with the model, and the documented one-way behaviour is checked directly
+fn run_outside_family(c: &mut Ctx) {
+    let k = c.n(1, 8);
+    for fmt in ["%F %T %::z", "%F %T %:::z", "%F %T %Z", "%F %T%::z", "%Y-%m-%dT%H:%M:%S%Z"] {
+        let df = DForm { fmt: String::new(), yk: Some(YK::Full), iyk: None, class: "print-only" };
+        for _ in 0..60 * k {
+            let z = gen_zoned(c, Some(&df));
+            let v = Val::Z(z);
+            let text = v.format(fmt);
+            let reply = match &text {
+                Ok(Ok(s)) => {
+                    let r = parse_as("zoned", s, fmt);
+                    let shown = show_parse(&r);
+                    c.count(&format!("print-only:{}:{}", &fmt[fmt.len() - 4..].trim(), if shown.starts_with("ok") { "ok" } else { &shown[4..] }));
+                    if shown.starts_with("ok") {
+                        c.fail("a print-only offset item was read back", &format!("fmt {:?} text {:?} -> {}", fmt, s, shown));
+                    }
+                    format!("{} {}", hex(s.as_bytes()), shown)
+                }
+                Ok(Err(())) => "err".to_string(),
+                Err(()) => "panic".to_string(),
+            };
+            c.op(&format!("pf.rt zoned {} {}", hex(fmt.as_bytes()), v.tokens()), &reply);
+        }
+    }
+    // `%#z` is read-only: formatting fails, reading accepts `+hh`, `+hhmm`, `+hh:mm`, `Z`
+    let fmt = "%F %T %#z";
+    for _ in 0..60 * k {
+        let df = DForm { fmt: String::new(), yk: Some(YK::Full4), iyk: None, class: "read-only" };
+        let l = gen_naive(c, Some(&df));
+        let l = l.date().and_time(NaiveTime::from_hms_opt(l.time().hour(), l.time().minute(), l.time().second() % 60).unwrap());
+        let h = c.rng.below(24) as i32;
+        let m = c.rng.below(60) as i32;
+        let neg = c.rng.chance(1, 2);
+        let (otext, off) = match c.rng.below(5) {
+            0 => (format!("{}{:02}", if neg { '-' } else { '+' }, h), h * 3600),
+            1 => (format!("{}{:02}{:02}", if neg { '-' } else { '+' }, h, m), h * 3600 + m * 60),
+            2 => (format!("{}{:02}:{:02}", if neg { '-' } else { '+' }, h, m), h * 3600 + m * 60),
+            3 => (format!("{}{:02} {:02}", if neg { '\u{2212}' } else { '+' }, h, m), h * 3600 + m * 60),
+            _ => ((*c.rng.pick(&["Z", "z"])).to_string(), 0),
+        };
+        let off = if neg && otext.len() > 1 { -off } else { off };
+        let text = format!("{} {}", l.format("%F %T"), otext);
+        let r = parse_as("zoned", &text, fmt);
+        let shown = show_parse(&r);
+        c.op(&format!("pf.p zoned {} {}", hex(fmt.as_bytes()), hex(text.as_bytes())), &shown);
+        c.count(&format!("read-only:%#z:{}", if shown.starts_with("ok") { "ok" } else { &shown[4..] }));
+        if let Some(z) = FixedOffset::east_opt(off).and_then(|fo| fo.from_local_datetime(&l).single()) {
+            let want = format!("ok {}", Val::Z(z).tokens());
+            if shown != want && (0..=9999).contains(&l.date().year()) {
+                c.fail("%#z does not read a documented offset form", &format!("text {:?} got [{}] want [{}]", text, shown, want));
+            }
+        }
+        let z = FixedOffset::east_opt(off).unwrap().from_utc_datetime(&l);
+        let f = Val::Z(z).format(fmt);
+        c.op(&format!("pf.f zoned {} {}", hex(fmt.as_bytes()), Val::Z(z).tokens()), &match &f { Ok(Ok(s)) => hex(s.as_bytes()), Ok(Err(())) => "err".into(), Err(()) => "panic".into() });
+        if matches!(f, Ok(Ok(_))) {
+            c.fail("%#z was formatted (documented as parse-only)", &text);
+        }
+    }
+}
+
+/// the four entry points on arbitrary (mostly non-family) formats and perturbed texts
+fn run_entry_points(c: &mut Ctx) {
+    let n = c.n(12000, 120000);
+    for i in 0..n {
+        let fmt = gen_fmt(c);
+        let text = if c.rng.chance(1, 12) {
+            let len = c.rng.below(14);
+            (0..len).map(|_| *c.rng.pick(&['0', '1', '5', '9', ' ', '-', '+', ':', '.', 'a', 'P', 'M', 'T', 'Z', '\u{e9}', '\u{2212}', 'J'])).collect()
+        } else {
+            gen_text_for(c, &fmt)
+        };
+        let target = *c.rng.pick(&["date", "time", "naive", "zoned"]);
+        let r = parse_as(target, &text, &fmt);
+        let shown = show_parse(&r);
+        c.count(&format!("entry:{}:{}", target, if shown.starts_with("ok") { "ok" } else if shown == "panic" { "panic" } else { &shown[4..] }));
+        if shown == "panic" {
+            c.fail("parse_from_str panicked", &format!("{} fmt {:?} text {:?}", target, fmt, text));
+        }
+        c.op(&format!("pf.p {} {} {}", target, hex(fmt.as_bytes()), hex(text.as_bytes())), &shown);
+        if i % 4 == 0 {
+            let r = parse_rem_as(target, &text, &fmt);
+            let shown = match &r {
+                Ok(Ok((v, n))) => format!("ok {} rest={}", v.tokens(), n),
+                Ok(Err(e)) => format!("err {}", err_kind(e)),
+                Err(()) => "panic".into(),
+            };
+            c.op(&format!("pf.r {} {} {}", target, hex(fmt.as_bytes()), hex(text.as_bytes())), &shown);
+        }
+    }
+}
+
+/// the numeric table observed through behaviour: how many digits each numeric item takes from a long
+/// digit string, and whether it accepts an explicit sign
+fn run_numeric_table(c: &mut Ctx) {
+    use chrono::format::{Numeric, Pad};
+    let all = [
+        Numeric::Year, Numeric::YearDiv100, Numeric::YearMod100, Numeric::IsoYear, Numeric::IsoYearDiv100, Numeric::IsoYearMod100, Numeric::Quarter,
+        Numeric::Month, Numeric::Day, Numeric::WeekFromSun, Numeric::WeekFromMon, Numeric::IsoWeek, Numeric::NumDaysFromSun, Numeric::WeekdayFromMon,
+        Numeric::Ordinal, Numeric::Hour, Numeric::Hour12, Numeric::Minute, Numeric::Second, Numeric::Nanosecond, Numeric::Timestamp,
+    ];
+    for n in &all {
+        for pad in [Pad::None, Pad::Zero, Pad::Space] {
+            for text in ["000000000000", "111111111111", "+1", "-1", "+000001", " 1", "  +1", "1", "01", "001", "0001", "00001", "", "-", "+", "1x", "\u{a0}1"] {
+                let items = [Item::Numeric(n.clone(), pad)];
+                let got = gs(
+                    || {
+                        let mut p = Parsed::new();
+                        parse_and_remainder(&mut p, text, items.iter()).map(|rest| (dump_parsed(&p), rest.len()))
+                    },
+                    |r| match r {
+                        Ok((d, rest)) => format!("ok {} rest={}", d, rest),
+                        Err(e) => format!("err {}", err_kind(&e)),
+                    },
+                );
+                c.op(&format!("ps.items {} {}", encode_items(&items), hex(text.as_bytes())), &got);
+                c.count("numeric-table:cases");
+            }
+        }
+    }
+}
+
+pub fn run(c: &mut Ctx) {
+    run_numeric_table(c);
+    run_family(c);
+    run_outside_family(c);
+    run_entry_points(c);
+    run_stage1(c);
 }
